@@ -151,7 +151,7 @@ class C12(Prop):
         return out
 
     def oracle(self, tier, rng, suspicious):
-        results = R.run_cases(self.cases(tier, rng))
+        results = self.l1_results or R.run_cases(self.cases(tier, rng))
         mods = []
         for r in results:
             m = r.meta
